@@ -314,6 +314,9 @@ def fixed_probes():
     out.append(("landmark-to-pose-se3", lm33))
     # the repaired class must stay repaired
     out.append(("landmark-se2-offset", lambda: Graph([EdgeLandmark([0, 1], np.eye(2), PoseR2([1.5, 0.2]), offset=PoseSE2([0.5, -0.2], 0.7), offset_id=0)], [Vertex(0, PoseSE2([0, 0], 0.3)), Vertex(1, PoseR2([2, 1]))])))
+    for tiny in (1e-13, 1e-100, 5e-324):
+        out.append(("landmark-se2-offset-tiny-%g" % tiny, lambda tiny=tiny: Graph([EdgeLandmark([0, 1], np.eye(2) * 1e20, PoseR2([1.5e-13, 0.2e-13]), offset=PoseSE2([tiny, -tiny], 0.0), offset_id=0)], [Vertex(0, PoseSE2([0, 0], 0.3)), Vertex(1, PoseR2([2e-13, 1e-13]))])))
+    out.append(("landmark-se2-offset-tiny-angle", lambda: Graph([EdgeLandmark([0, 1], np.eye(2), PoseR2([1.5, 0.2]), offset=PoseSE2([0.0, 0.0], 1e-14), offset_id=0)], [Vertex(0, PoseSE2([0, 0], 0.3)), Vertex(1, PoseR2([2, 1]))])))
     out.append(("landmark-se3-unregistered", lambda: Graph([EdgeLandmark([0, 1], np.eye(3), PoseR3([1.5, 0.2, 0]), offset=PoseSE3([0.5, -0.2, 0], [0, 0, 0, 1]), offset_id=3)], [Vertex(0, PoseSE3([0, 0, 0], [0, 0, 0, 1])), Vertex(1, PoseR3([2, 1, 0]))])))
     return out
 
